@@ -406,6 +406,7 @@ def _sub_elements(c):
                        M.lat(r, j) == subres(M.lat(E, j - s0), M.lat(v, j), kw)),
                 native_of(M.lat(v, j), M.lat(r, j)))), patterns=[M.lat(r, j)]))
     c.ensures("positions", post, ("C04", "C05", "C12"))
+    c.ensures("window-marker", lambda r, post_: win_at(r, s0), ("C12",))
     c.fresh_result = True
 
 
@@ -456,3 +457,219 @@ def _inv_se2(L):
                             z3.And(z3.Not(subraises(M.lat(E, j - L.i), M.lat(v, s0 + j - L.i), kw)),
                                    M.lat(R, j) == subres(M.lat(E, j - L.i), M.lat(v, s0 + j - L.i), kw)),
                             native_of(M.lat(v, s0 + j - L.i), M.lat(R, j))))), patterns=[M.lat(R, j)]))
+
+
+# ----------------------------------------------------------------------------- Substitutor.visit_dict
+def _pair(ct, p: Any, first: Any, flag: Any) -> Any:
+    return z3.And(M.is_Ref(p), M.rcls(p) == ct.id("tuple"), M.llen(p) == 2, first(M.lat(p, 0)), M.lat(p, 1) == flag)
+
+
+def dict_untyped_entry(ct, v: Any, x: Any, pair: Any) -> Any:
+    """entry built for key x of the value when the schema declares no keys: (from_native(v[x]) or `...`, False)"""
+    vx = M.dget(v, x)
+    return _pair(ct, pair, lambda m: z3.If(vx == M.EllV, m == M.EllV, native_of(vx, m)), M.mk_bool(False))
+
+
+def dict_keyed_entry(ct, K: Any, v: Any, kw: Any, x: Any, pair: Any) -> Any:
+    """entry built for declared key x: the member substituted with v[x] and made required when x is given (kept as it
+    is for a `...` placeholder), otherwise the declared (member, optional) pair"""
+    old = M.dget(K, x)
+    m0, vx = M.lat(old, 0), M.dget(v, x)
+    given = z3.And(M.has(v, x), vx != M.EllV)
+    return z3.If(M.has(v, x),
+                 _pair(ct, pair, lambda m: z3.If(vx == M.EllV, m == m0, z3.And(z3.Not(subraises(m0, vx, kw)),
+                                                                               m == subres(m0, vx, kw))), M.mk_bool(False)),
+                 _pair(ct, pair, lambda m: m == m0, M.lat(old, 1)))
+
+
+@contract(SUB, "Substitutor.visit_dict", props=("C04", "C05", "C12", "C07"), group="substitutor")
+def _sub_dict(c):
+    ct = c.ct
+    c.built_self("Substitutor")
+    Sx = c.sym("schema", "DictSchema")
+    v = c.sym("value")
+    kw = c.kwargs()
+    for f in S.reach_def(ct, "DictSchema", Sx):
+        c.requires(f)
+    c.requires(S.deep_range(v), "float-repr")
+    K = S.prop(Sx, "keys")
+    x = z3.Const("sdx", Obj)
+    j = z3.Int("sdj")
+    untyped = z3.Or(K == M.NilV, z3.And(M.klen(K) == 1, M.has(K, M.EllV)))
+    c.paths()
+    c.raises("SubstitutionError", props=("C12",))
+    c.returns("DictSchema")
+    c.ensures("same-class", lambda r, post: z3.And(S.is_schema(ct, r), M.rcls(r) == M.rcls(Sx)), ("C12", "C07"))
+
+    def post(r, post_):
+        R = S.prop(r, "keys")
+        pair = M.dget(R, x)
+        return z3.And(
+            V.rvalid(Sx, v), M.isinstance_f(ct, v, "dict"), M.isinstance_f(ct, R, "dict"),
+            z3.If(untyped,
+                  z3.And(z3.ForAll([x], M.has(R, x) == z3.Or(M.has(v, x), z3.And(x == M.EllV, K != M.NilV)), patterns=[M.has(R, x)]),
+                         z3.ForAll([x], z3.Implies(z3.And(M.has(v, x), z3.Not(z3.And(x == M.EllV, K != M.NilV))),
+                                                   dict_untyped_entry(ct, v, x, pair)), patterns=[M.dget(R, x)]),
+                         # a relaxed schema stays relaxed (this entry replaces whatever the value gave for `...`)
+                         z3.Implies(K != M.NilV, _pair(ct, M.dget(R, M.EllV), lambda m: m == M.EllV, M.mk_bool(False)))),
+                  z3.And(z3.Not(M.has(v, M.EllV)),
+                         # the declared keys, in the declared order; no key of the value is unknown
+                         M.klen(R) == M.klen(K),
+                         z3.ForAll([j], z3.Implies(z3.And(0 <= j, j < M.klen(K)), M.kat(R, j) == M.kat(K, j)), patterns=[M.kat(R, j)]),
+                         z3.ForAll([x], M.has(R, x) == M.has(K, x), patterns=[M.has(R, x)]),
+                         z3.ForAll([x], z3.Implies(M.has(v, x), M.has(K, x)), patterns=[M.has(v, x)]),
+                         z3.ForAll([x], z3.Implies(M.has(K, x), dict_keyed_entry(ct, K, v, kw, x, pair)), patterns=[M.dget(R, x)]))))
+    c.ensures("keys", post, ("C04", "C05", "C12"))
+    c.meta = {"cls": "DictSchema"}
+
+
+@invariant(SUB, "Substitutor.visit_dict", loop=0)
+def _inv_sd0(L):
+    """L24 (no declared keys): one entry per item of the value seen so far"""
+    ct = L.ct
+    keys, v = L.v("keys"), L.v("value")
+    x = z3.Const("l4x", Obj)
+    return z3.And(M.is_Ref(keys), M.rcls(keys) == ct.id("dict"),
+                  z3.ForAll([x], M.has(keys, x) == z3.And(M.has(v, x), M.kidx(v, x) < L.i), patterns=[M.has(keys, x)]),
+                  z3.ForAll([x], z3.Implies(M.has(keys, x), dict_untyped_entry(ct, v, x, M.dget(keys, x))),
+                            patterns=[M.dget(keys, x)]))
+
+
+@invariant(SUB, "Substitutor.visit_dict", loop=1)
+def _inv_sd1(L):
+    """L25 (declared keys): the declared keys seen so far, in order, each with its substituted / kept entry"""
+    ct = L.ct
+    keys, v, Sx = L.v("keys"), L.v("value"), L.v("schema")
+    kw = L.v("kwargs")
+    K = S.prop(Sx, "keys")
+    x = z3.Const("l5x", Obj)
+    j = z3.Int("l5j")
+    return z3.And(M.is_Ref(keys), M.rcls(keys) == ct.id("dict"), M.klen(keys) == L.i,
+                  z3.ForAll([j], z3.Implies(z3.And(0 <= j, j < L.i), M.kat(keys, j) == M.kat(K, j)), patterns=[M.kat(keys, j)]),
+                  z3.ForAll([x], M.has(keys, x) == z3.And(M.has(K, x), M.kidx(K, x) < L.i), patterns=[M.has(keys, x)]),
+                  z3.ForAll([x], z3.Implies(M.has(keys, x), dict_keyed_entry(ct, K, v, kw, x, M.dget(keys, x))),
+                            patterns=[M.dget(keys, x)]))
+
+
+@invariant(SUB, "Substitutor.visit_dict", loop=2)
+def _inv_sd2(L):
+    """L26: every key of the value seen so far is declared"""
+    v, Sx = L.v("value"), L.v("schema")
+    K = S.prop(Sx, "keys")
+    j = z3.Int("l6j")
+    return z3.ForAll([j], z3.Implies(z3.And(0 <= j, j < L.i), M.has(K, M.kat(v, j))), patterns=[M.kat(v, j)])
+
+
+# ----------------------------------------------------------------------------- Substitutor.visit_list
+win_at = z3.Function("win_at", Obj, M.I, M.B)
+"""constant-true marker: `win_at(result, start)` names the window position _substitute_elements used, so that the
+existential in the postcondition of visit_list has a term to be instantiated with (trigger-only, adds no fact)"""
+
+
+def _win_axioms(ct) -> List[Any]:
+    r = z3.Const("war", Obj)
+    s = z3.Int("was")
+    return [z3.ForAll([r, s], win_at(r, s), patterns=[win_at(r, s)])]
+
+
+_REG.axiom_fns.append(_win_axioms)
+
+
+def window_positions(ct, R: Any, v: Any, E: Any, off: Any, ne: Any, s0: Any, kw: Any) -> Any:
+    j = z3.Int("wpj")
+    n = M.llen(v)
+    return z3.And(0 <= s0, s0 + ne <= n, z3.ForAll([j], z3.Implies(z3.And(0 <= j, j < n), z3.If(
+        z3.And(s0 <= j, j < s0 + ne),
+        z3.And(z3.Not(subraises(M.lat(E, off + j - s0), M.lat(v, j), kw)),
+               M.lat(R, j) == subres(M.lat(E, off + j - s0), M.lat(v, j), kw)),
+        native_of(M.lat(v, j), M.lat(R, j)))), patterns=[M.lat(R, j)]))
+
+
+@contract(SUB, "Substitutor.visit_list", props=("C04", "C05", "C12", "C07"), group="substitutor")
+def _sub_list(c):
+    ct = c.ct
+    c.built_self("Substitutor")
+    Sx = c.sym("schema", "ListSchema")
+    v = c.sym("value")
+    kw = c.kwargs()
+    for f in S.reach_def(ct, "ListSchema", Sx):
+        c.requires(f)
+    c.requires(S.deep_range(v), "float-repr")
+    E, Ty = S.prop(Sx, "elements"), S.prop(Sx, "type")
+    n, m = M.llen(v), M.llen(E)
+    j = z3.Int("slj")
+    s0 = z3.Int("sls0")
+    c.paths()
+    c.raises("SubstitutionError", props=("C12",))
+    c.returns("ListSchema")
+    c.ensures("same-class", lambda r, post: z3.And(S.is_schema(ct, r), M.rcls(r) == M.rcls(Sx)), ("C12", "C07"))
+    # (when the conversion of a member fails is not characterised, so refusals are pinned down only where no member is
+    # involved: an empty list that passes the relaxed validation of an element-less schema is never refused)
+    c.ensures_exc("SubstitutionError", "not-for-an-empty-valid-value",
+                  lambda e, post: z3.Or(z3.Not(V.rvalid(Sx, v)), M.llen(v) > 0, E != M.NilV), ("C12",))
+    e0, el = M.lat(E, 0) == M.EllV, M.lat(E, m - 1) == M.EllV
+    body = z3.And(m > 2, e0, el)
+    head = z3.And(z3.Not(body), m >= 2, el)
+    tail = z3.And(z3.Not(body), z3.Not(head), m >= 1, e0)
+
+    def post(r, post_):
+        R = S.prop(r, "elements")
+        member = lambda jj, fn: z3.If(M.lat(v, jj) == M.EllV, M.lat(R, jj) == M.EllV, fn(M.lat(v, jj), M.lat(R, jj)))
+        no_ell = z3.ForAll([j], z3.Implies(z3.And(0 <= j, j < n), M.lat(v, j) != M.EllV), patterns=[M.lat(v, j)])
+        win = lambda off, ne, cond: z3.Exists([s0], z3.And(win_at(R, s0), cond(s0),
+                                                           window_positions(ct, R, v, E, off, ne, s0, kw)),
+                                              patterns=[win_at(R, s0)])
+        return z3.And(
+            V.rvalid(Sx, v), M.isinstance_f(ct, v, "list"), M.isinstance_f(ct, R, "list"), M.llen(R) == n,
+            *[S.prop(r, nm) == S.prop(Sx, nm) for nm in ("len", "min_len", "max_len")],
+            S.prop(r, "type") == M.NilV,
+            # a non-empty value made of `...` only is refused
+            z3.Implies(n > 0, z3.Exists([j], z3.And(0 <= j, j < n, M.lat(v, j) != M.EllV), patterns=[M.lat(v, j)])),
+            # one implication per case (the discharger proves them as separate leaves)
+            z3.Implies(z3.And(E == M.NilV, Ty == M.NilV),
+                       z3.ForAll([j], z3.Implies(z3.And(0 <= j, j < n), member(j, native_of)), patterns=[M.lat(R, j)])),
+            z3.Implies(Ty != M.NilV,
+                       z3.ForAll([j], z3.Implies(z3.And(0 <= j, j < n), member(j, lambda x, mm: z3.And(
+                           z3.Not(subraises(Ty, x, kw)), mm == subres(Ty, x, kw)))), patterns=[M.lat(R, j)])),
+            z3.Implies(z3.And(Ty == M.NilV, E != M.NilV), no_ell),
+            z3.Implies(z3.And(Ty == M.NilV, E != M.NilV, body), win(1, m - 2, lambda s: s < n)),
+            z3.Implies(z3.And(Ty == M.NilV, E != M.NilV, head), win(0, m - 1, lambda s: s == 0)),
+            z3.Implies(z3.And(Ty == M.NilV, E != M.NilV, tail),
+                       win(1, m - 1, lambda s: s == z3.If(n - (m - 1) > 0, n - (m - 1), 0))),
+            z3.Implies(z3.And(Ty == M.NilV, E != M.NilV, z3.Not(body), z3.Not(head), z3.Not(tail)),
+                       win(0, m, lambda s: s == 0)))
+    c.ensures("elements", post, ("C04", "C05", "C12"))
+    c.meta = {"cls": "ListSchema"}
+
+
+@invariant(SUB, "Substitutor.visit_list", loop=0)
+def _inv_sl0(L):
+    """L27 (untyped list): one from_native schema (or the kept `...`) per element seen so far"""
+    ct = L.ct
+    R, v = L.v("elements"), L.v("value")
+    j = z3.Int("l7j")
+    return z3.And(M.is_Ref(R), M.rcls(R) == ct.id("list"), M.llen(R) == L.i,
+                  z3.ForAll([j], z3.Implies(z3.And(0 <= j, j < L.i), z3.If(
+                      M.lat(v, j) == M.EllV, M.lat(R, j) == M.EllV, native_of(M.lat(v, j), M.lat(R, j)))),
+                      patterns=[M.lat(R, j)]))
+
+
+@invariant(SUB, "Substitutor.visit_list", loop=1)
+def _inv_sl1(L):
+    """L28 (typed list): one member substitution (or the kept `...`) per element seen so far"""
+    ct = L.ct
+    R, v, Sx = L.v("elements"), L.v("value"), L.v("schema")
+    kw = L.v("kwargs")
+    Ty = S.prop(Sx, "type")
+    j = z3.Int("l8j")
+    return z3.And(M.is_Ref(R), M.rcls(R) == ct.id("list"), M.llen(R) == L.i,
+                  z3.ForAll([j], z3.Implies(z3.And(0 <= j, j < L.i), z3.If(
+                      M.lat(v, j) == M.EllV, M.lat(R, j) == M.EllV,
+                      z3.And(z3.Not(subraises(Ty, M.lat(v, j), kw)), M.lat(R, j) == subres(Ty, M.lat(v, j), kw)))),
+                      patterns=[M.lat(R, j)]))
+
+
+@invariant(SUB, "Substitutor.visit_list", loop=2)
+def _inv_sl2(L):
+    """L29 (contains form): nothing is carried from one candidate position to the next (the parameters are not rebound)"""
+    return z3.And(*[L.v(nm) == L.pre(nm) for nm in ("schema", "value", "elements")])
